@@ -29,7 +29,7 @@ def gen_part_a(pool, col, tier, deadline):
     combos = []
     for shape in shapes.SHAPE_NAMES:
         for dbkind in (('file', 'memory', 'shared') if tier == 'thorough' else ('file', 'memory')):
-            if dbkind != 'file' and shape in ('two_db',):
+            if dbkind != 'file' and shape.startswith('two_db'):
                 continue
             for pooled in (True, False):
                 if dbkind != 'file' and not pooled:
